@@ -12,7 +12,7 @@ import ast
 from typing import Dict, List, Optional, Set, Tuple
 
 from ..model import Program, AnalysisError, FuncInfo, walk_local, dotted
-from ..report import RuleResult
+from ..report import RuleResult, guard
 from ..astutil import src, site, calls_in, call_name, is_self_attr, kwarg
 from ..cfg import CFG
 from ..effects import effects, write_summary, MUT_ADD, MUT_DEL
@@ -488,4 +488,4 @@ def wf_resolved(prog: Program) -> RuleResult:
 
 
 def run(prog: Program, tier: str) -> List[RuleResult]:
-    return [wf_table(prog), cd_edges(prog), cd_readonly(prog), cd_memo(prog), cd_multi(prog), _shared_default(prog), wf_resolved(prog)]
+    return [guard(lambda: wf_table(prog)), guard(lambda: cd_edges(prog)), guard(lambda: cd_readonly(prog)), guard(lambda: cd_memo(prog)), guard(lambda: cd_multi(prog)), guard(lambda: _shared_default(prog)), guard(lambda: wf_resolved(prog))]
